@@ -32,7 +32,15 @@ pub struct Ctx {
     pub args: Vec<String>,
 }
 
+/// Set when the harness itself runs under Miri (tiny workloads, one worker thread).
+pub fn miri() -> bool {
+    cfg!(miri) || std::env::var("VERIF_MIRI").is_ok()
+}
+
 pub fn threads() -> usize {
+    if miri() {
+        return 1;
+    }
     std::env::var("VERIF_THREADS")
         .ok()
         .and_then(|s| s.parse().ok())
